@@ -336,6 +336,8 @@ RunEnd ==
             (run.mustSucceed /\ Ev.exit = 0 /\ Ev.post.present) => Ev.post.unresolved = <<>> >>,
         <<"RunEnd: exit 0 but derived.gen.go does not parse or type-check (C09)",
             (run.wellTyped /\ ~run.mustSucceed /\ Ev.exit = 0 /\ Ev.post.present) => Ev.post.typechecks>>,
+        <<"RunEnd: exit 0 but derived.gen.go is not a syntactically valid Go file (C09)",
+            (~run.wellTyped /\ Ev.exit = 0 /\ Ev.post.present) => Ev.post.derivedParses>>,
         <<"RunEnd: non-zero exit without a diagnostic (C09)", Ev.exit # 0 => Ev.diagnostic>>,
         <<"RunEnd: a generator error did not reach the exit status (C09)", pass.exitErr => Ev.exit # 0>>,
         <<"RunEnd: exit status contradicts the conflict/duplicate rules (C11): expected " \o expect,
